@@ -113,7 +113,8 @@ def key_precedence(ctx, rep: Report, rule: str):
     key / hashable-item defaults apply only when no key function was given."""
     rep.rules[rule] = "decision structure of KeyedBase.key: explicit key function first"
     it, outs, c = keyed.run_method("KeyedList", "key", [Sym(("item",), {ARG}, tags={"nonsentinel"})], reducer=None,
-                                   configure=lambda cfg: setattr(cfg, "record_decisions", True), user_may_raise=False)
+                                   configure=lambda cfg: (setattr(cfg, "record_decisions", True), setattr(cfg, "record_truth_tests", True)),
+                                   user_may_raise=False)
     if outs is None:
         raise AnalysisError(f"{rule}: key() not found")
     rep.functions |= set(it.functions_entered)
@@ -138,6 +139,10 @@ def key_precedence(ctx, rep: Report, rule: str):
             bad.append(f"returns `{ret}` on a path that never asked whether a key function was given (the item's own spec-class key / the item itself wins over the explicit key function)")
         if has_key is False and from_fn:
             bad.append("calls a key function that was not given")
+    for t in it.truth_tests:
+        tok = "/".join(map(str, t[0]))
+        if tok.startswith("item/.{"):      # getattr(item, <key attribute>): the key *value*
+            bad.append(f"decides on the truthiness of the key value `{tok}`: an item whose key is 0 / '' / False is keyed by something else (the item itself)")
     if npaths < 3:
         raise AnalysisError(f"{rule}: {npaths} normal paths through key() (floor 3)")
     rep.oblige(rule, "KeyedBase.key", not bad, "; ".join(sorted(set(bad))[:2]))
